@@ -1,2 +1,40 @@
-From Coq Require Import List ZArith.
-From Gosk Require Import Base.Bytes Spec.X86.
+(** C03 - label and $ values equal the real byte offsets.
+    [Inv org s]: the location counter equals origin + the number of bytes that the ocodes recorded
+    so far will emit.  It holds initially and is preserved by every statement of the data/label
+    fragment (labels, DB/DW/DD over numbers, strings and already-defined labels, RESB), for
+    statement sequences of any length; so every label holds origin + bytes really emitted before
+    it, and the image has exactly LOC - origin bytes.  For instructions the same invariant needs
+    "estimate = emitted length" per statement: proved here for the hand-written branch emitters
+    on their domain, refuted beyond it (the C03/C04 findings), and checked on the implementation
+    for every other statement kind by walking the image (Check/C03.v). *)
+From Coq Require Import List ZArith String Bool.
+From Gosk Require Import Base.Bytes Model.Ast Model.Eval Model.Asm Lemmas.C03Lemmas.
+Import ListNotations.
+Local Open Scope Z_scope.
+
+Theorem C03_loc_invariant : forall (E : encoder) org s s', Inv org s -> dsteps s s' -> Inv org s'.
+Proof. exact inv_steps. Qed.
+Print Assumptions C03_loc_invariant.
+
+Theorem C03_labels_exact : forall (E : encoder) org s0 s l, Inv org s0 -> dsteps s0 s ->
+  exists bs, all_bytes (rev (ocodes s)) = Some bs /\ lookup l (sym (set_sym s l (loc s))) = Some (org + zlen bs).
+Proof. exact label_is_offset. Qed.
+Print Assumptions C03_labels_exact.
+
+Theorem C03_total_length : forall (E : encoder) org s0 s m st dol d, Inv org s0 -> dsteps s0 s ->
+  exists bs, codegen E m st dol [] d (rev (ocodes s)) = GOk bs d /\ loc s = org + zlen bs.
+Proof. exact total_length. Qed.
+Print Assumptions C03_total_length.
+
+Theorem C03_init : Inv 0 init_state.
+Proof. exact inv_init. Qed.
+
+Theorem C03_size_jmp_short16 : forall rel, -128 <= rel <= 127 -> zlen (gen_jmp M16 rel) = estimate_jump "JMP" M16.
+Proof. exact size_jmp_short16. Qed.
+Theorem C03_size_jcc_short16 : forall opc rel name, -128 <= rel <= 127 -> name <> "CALL"%string -> zlen (gen_jcc opc rel) = estimate_jump name M16.
+Proof. exact size_jcc_short16. Qed.
+Theorem C03_size_call16 : forall rel, -32768 <= rel - 5 <= 32767 -> zlen (gen_call rel) = estimate_jump "CALL" M16.
+Proof. exact size_call16. Qed.
+Theorem C03_size_jmp16_refuted : exists rel, zlen (gen_jmp M16 rel) <> estimate_jump "JMP" M16.
+Proof. exact size_jmp16_refuted. Qed.
+Print Assumptions C03_size_call16.
